@@ -31,6 +31,10 @@ def gen_lines(rng, n):
             return bytes(rng.choice(b"ab \xc3\xa9\xff") for _ in range(rng.randrange(0, 14)))
         if r < 0.85:
             return b"p" * rng.randrange(0, 9)          # shifts the following lines in the reader's buffer
+        if r < 0.89:
+            # around and beyond the 8 KiB output buffer (a line that does not fit is written around it)
+            n_ = rng.choice([8190, 8191, 8192, 8193, 9000, 20000])
+            return bytes(97 + (i * 7 + n_) % 26 for i in range(n_))
         # a mostly-ASCII line with a single stray byte (Latin-1 text in a UTF-8 corpus), at any offset
         b = bytearray(b"The quick brown fox jumps over the lazy dog"[:rng.randrange(1, 44)])
         b[rng.randrange(len(b))] = rng.choice([0xE9, 0x80, 0xFF, 0xC3])
@@ -62,7 +66,7 @@ def run(ctx):
         ls = gen_lines(rng, rng.randrange(0, 14))
         data = text(ls)
         # ---- remove_long_lines
-        limit = rng.choice([0, 1, 9, 10, 11, 2000])
+        limit = rng.choice([0, 1, 9, 10, 11, 2000, 100000])
         st, out, err = tool(ctx, "remove_long_lines", [str(limit)], data)
         m = pvlib.run_lines(pvlib.PVDRIVER, [f"tools.long {limit} {hx(data)}"])[0]
         ctx.count("remove_long_lines", 1, [(limit, data)])
